@@ -14,6 +14,9 @@ ASSUMPTIONS = ["f32<->f64 conversions of FLOAT parameters are exact (oracle supp
 INT_W = {1: 1, 2: 2, 13: 2, 3: 4, 9: 4, 8: 8}
 
 
+BIG = [False]      # set while generating the cases that may contain parameters of 64 KiB and more
+
+
 def rand_param(rng, allow=None):
     """returns (type, unsigned, encoded bytes, expected inner text, conv name, expected conv text)"""
     ty = rng.choice(allow or [1, 2, 13, 3, 9, 8, 4, 5, 10, 12, 7, 11, 6] + BYTES_TYPES)
@@ -39,8 +42,8 @@ def rand_param(rng, allow=None):
             bits = 0x3ff0000000000000
         return ty, uns, struct.pack("<Q", bits), "double:%016x" % bits, "f64", "%016x" % bits
     if ty in BYTES_TYPES:
-        n = rng.choice([0, 1, 3, 250, 251, 300])
-        b = bytes(rng.choice(b"ab\x00\xff") for _ in range(n)) if rng.random() < 0.5 else b"x" * n
+        n = rng.choice([0, 1, 3, 250, 251, 300, 300, 65535, 65536, 70000] if BIG[0] else [0, 1, 3, 250, 251, 300])
+        b = bytes(rng.choice(b"ab\x00\xff") for _ in range(n)) if (rng.random() < 0.5 and n < 1000) else b"x" * n
         asstr = all(c < 128 for c in b)
         return ty, uns, lenenc_str(b), "bytes:" + b.hex(), ("str" if asstr and rng.random() < 0.5 else "bytes"), b.hex()
     if ty == 10:
@@ -135,6 +138,23 @@ def run(ctx):
         for _ in range(3 if ctx.quick() else 10):
             i += 1
             cases.append(exec_case(ctx, "c08_%d" % i, 1, nulls=[False], allow=[ty]))
+    # byte-string parameters in every length-encoding class (1-, 3-, 4- and 9-byte prefixes), each followed by
+    # further parameters that would be decoded out of phase if the prefix were misread
+    BIG[0] = True
+    for _ in range(8 if ctx.quick() else 60):
+        i += 1
+        cases.append(exec_case(ctx, "c08_%d" % i, rng.randint(2, 4), nulls=[False] * 4, allow=[253, 252, 3]))
+    BIG[0] = False
+    if not ctx.quick():
+        for n in (2**24 - 1, 2**24, 2**24 + 5):
+            i += 1
+            blob = b"y" * n
+            block = exec_block([False, False], [(252, False), (3, False)], [lenenc_str(blob), le(77, 4)])
+            c = mk_case("c08_%d" % i, [("prepare", cmd_prepare(b"p")), ("execute", cmd_execute(7, block)), ("ping", cmd_ping())],
+                        ["p reply 7 %s 0" % progs.cols_tok([dict(table=b"", name=b"?", type=252, flags=0)] * 2), "x all none,none done 0 0"],
+                        chunks=[1 << 20], cap=1 << 26)
+            c.meta["expect_calls"] = ["execute|7", "param|252|bytes:" + blob.hex(), "param|3|int:77"]
+            cases.append(c)
     # several executions of one statement, each binding its own (different) types
     from . import c16
     multi = [c16.history_case(ctx, "c08m_%d" % j, plan=[(j % 2, True)] * rng.randint(2, 4)) for j in range(20 if ctx.quick() else 300)]
